@@ -56,7 +56,8 @@ type FuncContract struct {
 	Binds          []Param // extra names: e.g. "bind x = expr" evaluated at entry (ghost lets)
 	LetSrc         []Clause
 	FnType         bool // contract for a function type / interface method
-	assignKeysMemo []string
+	assignKeysMemo [][]string
+	RecAssumed     string
 }
 
 type SpecDef struct {
@@ -69,6 +70,7 @@ type SpecDef struct {
 	File    string
 	Line    int
 	Rec     bool
+	Ghost   bool // ghost field: heap-resident, indexed by an object reference (or global if no params)
 }
 
 type AxiomDef struct {
@@ -92,6 +94,7 @@ type Contracts struct {
 	Files  []string
 	// scan of assumption keywords for the evidence
 	AssumedList []string
+	Notes       []string
 }
 
 func NewContracts() *Contracts {
@@ -101,7 +104,7 @@ func NewContracts() *Contracts {
 var clauseKeywords = map[string]bool{
 	"props": true, "requires": true, "ensures": true, "assigns": true, "pure": true, "trusted": true,
 	"assumed": true, "terminates": true, "loop": true, "measure": true, "maypanic": true, "note": true,
-	"let": true, "model": true,
+	"let": true, "model": true, "recursion_assumed": true,
 }
 
 // normaliseFuncKey turns "(*Cursor).Pos" into "(*pkgpath.Cursor).Pos" and "Name" into "pkgpath.Name".
@@ -213,7 +216,7 @@ func (cs *Contracts) LoadFile(path, pkgPath string) error {
 		lines = append(lines, rawLine{strings.TrimSpace(t[3:]), i + 1})
 	}
 	// join continuation lines: a line continues the previous one if its first word is not a keyword
-	topKeywords := map[string]bool{"func": true, "pred": true, "spec": true, "axiom": true, "lemma": true, "package": true, "fntype": true, "hint": true, "trigger": true}
+	topKeywords := map[string]bool{"func": true, "pred": true, "spec": true, "ghost": true, "axiom": true, "lemma": true, "package": true, "fntype": true, "hint": true, "trigger": true}
 	var joined []rawLine
 	for _, l := range lines {
 		if l.text == "" {
@@ -283,7 +286,7 @@ func (cs *Contracts) LoadFile(path, pkgPath string) error {
 			cur = &FuncContract{Key: key, Raw: rest, PkgPath: pkgPath, Loops: map[int]*LoopSpec{}, File: path, Line: l.n, NoPanic: true, FnType: w == "fntype"}
 			cs.Funcs[key] = cur
 			curAx = nil
-		case "pred", "spec":
+		case "pred", "spec", "ghost":
 			cur, curAx = nil, nil
 			sigPart, body := rest, ""
 			if i := strings.Index(rest, " = "); i >= 0 {
@@ -299,7 +302,7 @@ func (cs *Contracts) LoadFile(path, pkgPath string) error {
 			if strings.HasPrefix(result, "rec ") {
 				result = strings.TrimSpace(result[4:])
 			}
-			sd := &SpecDef{Name: name, PkgPath: pkgPath, Params: params, Result: result, Src: body, File: path, Line: l.n}
+			sd := &SpecDef{Name: name, PkgPath: pkgPath, Params: params, Result: result, Src: body, File: path, Line: l.n, Ghost: w == "ghost"}
 			if body != "" {
 				e, err := ParseExpr(body)
 				if err != nil {
@@ -414,6 +417,9 @@ func (cs *Contracts) LoadFile(path, pkgPath string) error {
 				cs.AssumedList = append(cs.AssumedList, fmt.Sprintf("assumed %s: %s", cur.Key, rest))
 			case "terminates":
 				cur.Terminates = true
+			case "recursion_assumed":
+				cur.RecAssumed = rest
+				cs.AssumedList = append(cs.AssumedList, fmt.Sprintf("recursion_assumed %s: %s", cur.Key, rest))
 			case "maypanic":
 				cur.MayPanic = true
 			case "note":
@@ -487,19 +493,35 @@ func splitTop(s string) []string {
 	return parts
 }
 
-// LoadAll loads contract files from the repo (zz_contracts_verif.go per package) and spec files.
-func (cs *Contracts) LoadAll(repo string, pkgDirs map[string]string, specDir string) error {
-	var paths []string
-	for pp := range pkgDirs {
-		paths = append(paths, pp)
-	}
-	sort.Strings(paths)
-	for _, pp := range paths {
-		f := filepath.Join(pkgDirs[pp], "zz_contracts_verif.go")
-		if _, err := os.Stat(f); err == nil {
-			if err := cs.LoadFile(f, pp); err != nil {
-				return err
-			}
+// LoadAll loads the contract files.  The mirror under <verif>/contracts is authoritative (one
+// zz_contracts_verif.go per package directory, same relative path as in the repository); the copy
+// committed in the repository behind build tag verif is compared with it and differences are noted.
+func (cs *Contracts) LoadAll(repo string, verif string, specDir string) error {
+	root := filepath.Join(verif, "contracts")
+	var files []string
+	filepath.Walk(root, func(path string, info os.FileInfo, err error) error {
+		if err == nil && !info.IsDir() && info.Name() == "zz_contracts_verif.go" {
+			files = append(files, path)
+		}
+		return nil
+	})
+	sort.Strings(files)
+	for _, f := range files {
+		rel, _ := filepath.Rel(root, filepath.Dir(f))
+		pp := modulePath
+		if rel != "." {
+			pp = modulePath + "/" + filepath.ToSlash(rel)
+		}
+		if err := cs.LoadFile(f, pp); err != nil {
+			return err
+		}
+		a, _ := os.ReadFile(f)
+		b, err := os.ReadFile(filepath.Join(repo, rel, "zz_contracts_verif.go"))
+		switch {
+		case err != nil:
+			cs.Notes = append(cs.Notes, fmt.Sprintf("contract file %s is missing in the repository; mirror used", filepath.Join(rel, "zz_contracts_verif.go")))
+		case string(a) != string(b):
+			cs.Notes = append(cs.Notes, fmt.Sprintf("contract file %s in the repository differs from the mirror; mirror used", filepath.Join(rel, "zz_contracts_verif.go")))
 		}
 	}
 	specs, _ := filepath.Glob(filepath.Join(specDir, "*.spec"))
